@@ -45,14 +45,17 @@ def predicate(case, i, tb, stale_candidates):
             if op == 'batch_forget': continue
             if not ids_fit(M, st['uid'], st['gid'], st['auid'], st['agid']): continue
             pairs = [(e['cuid'], lambda X: to_int(X, st['uid'])), (e['cgid'], lambda X: to_int(X, st['gid']))]
-            if op == 'setattr': pairs += [(e['suid'], lambda X: to_int(X, st['auid'])), (e['sgid'], lambda X: to_int(X, st['agid']))]
+            if op == 'setattr':
+                # an owner id is "to be set" when its FATTR bit is in the request (st['size'] carries the valid bits)
+                if st['size'] & FATTR_UID: pairs.append((e['suid'], lambda X: to_int(X, st['auid'])))
+                if st['size'] & FATTR_GID: pairs.append((e['sgid'], lambda X: to_int(X, st['agid'])))
             if any(obs != f(M) for obs, f in pairs):
                 base = dict(kind='in', op=op)
                 if st['ino'] == ROOT_INO and all(obs == f(G) for obs, f in pairs[:2]) and (op != 'setattr' or all(obs == f(M) for obs, f in pairs[2:])):
                     base = dict(kind='root-mount-ctx')       # nodeid 1 of a root mount: context translated with the global mapping
                 sig = classify(M, pairs, base)
                 bad.append(('backend %d (slot %d, mapping %s) saw ids %s for external %s' % (e['bid'], idx, M, [p[0] for p in pairs],
-                            [st['uid'], st['gid']] + ([st['auid'], st['agid']] if op == 'setattr' else [])), sig))
+                            [st['uid'], st['gid']] + ([st['auid'], st['agid'], 'valid=%d' % st['size']] if op == 'setattr' else [])), sig))
         # ---- out: what the client sees
         if o['status'] == 'ok' and o['events']:
             outs = []
@@ -127,6 +130,18 @@ def sweep_ops(g, nodeid, tb, maps):
         g.request(op, nodeid, name=('norm', 3), name2=('norm', 4), ans=a, uid=pick_id(g.rng, maps), gid=pick_id(g.rng, maps),
                   auid=pick_id(g.rng, maps), agid=pick_id(g.rng, maps), size=4096, offset=0, limit=10, **kw)
 
+def setattr_block(g, nodeid, M):
+    """SETATTR x valid bits {UID only, GID only, both, neither, each with MODE/SIZE} x ids {both edges of the external range,
+    just outside, 0, u32::MAX}, uid and gid always different, on a backend inode whose mount has mapping M (None: ids
+    around 1000)"""
+    i, e, r = M if M is not None else (0, 1000, 1000)
+    ids = [e, min(e + r - 1, U32 - 1), max(e - 1, 0), min(e + r, U32 - 1), 0, U32 - 1]
+    for valid in SETATTR_VALID:
+        for k in range(len(ids)):
+            if g.c.dead: return
+            a = mk_ans(attr={'ino': 3, 'uid': i, 'gid': min(i + max(r, 1) - 1, U32 - 1), 'tag': 1})
+            g.request('setattr', nodeid, auid=ids[k], agid=ids[(k + 1) % len(ids)], size=valid, uid=ids[(k + 2) % len(ids)], gid=ids[(k + 3) % len(ids)], ans=a)
+
 def sc_sweep(sess, rng, tb, **over):
     """global / per-mount / no mapping, overlapping and disjoint ranges; every operation on a mount with its own mapping,
     on one without, on the pseudo fs and across mount points"""
@@ -137,8 +152,10 @@ def sc_sweep(sess, rng, tb, **over):
     gm = gmap_of(c.cfg)
     u2 = {'uid': pick_id(rng, [c.cfg['gmap']]), 'gid': pick_id(rng, [c.cfg['gmap']])} if (gm is None or os.environ.get('VFS_NO_DET')) else {'uid': gm[0], 'gid': gm[0] + gm[2] - 1}
     st2, o2 = g.mount(path=mk_path(rng, [('N', 2), ('N', 3)]), map=None, ans=dict(okmount(rng), **u2))    # owner inside the global mapping's internal range
-    for o_ in (o1, o2):
-        if o_['status'] == 'ok': sweep_ops(g, (o_['vals'][0] << 56) | 1, tb, g.maps_in_play)
+    for o_, M_ in ((o1, m1), (o2, gmap_of(c.cfg))):
+        if o_['status'] == 'ok':
+            sweep_ops(g, (o_['vals'][0] << 56) | 1, tb, g.maps_in_play)
+            if not os.environ.get('VFS_NO_DET'): setattr_block(g, (o_['vals'][0] << 56) | 1, M_)
     sweep_ops(g, ROOT_INO, tb, g.maps_in_play)
     sweep_ops(g, 3, tb, g.maps_in_play)
     if not c.dead: c07.probe_mount_paths(g, c, [])       # lookups / readdirplus / getattr across the mount points
@@ -150,6 +167,7 @@ def sc_rootmount(sess, rng, tb):
     if m1: g.maps_in_play.append(m1)
     g.mount(path=mk_path(rng, [], noise=False), map=m1, ans=dict(okmount(rng, 1), uid=pick_id(rng, g.maps_in_play), gid=pick_id(rng, g.maps_in_play)))
     sweep_ops(g, ROOT_INO, tb, g.maps_in_play)
+    if not c.dead and not os.environ.get('VFS_NO_DET'): setattr_block(g, ROOT_INO, m1 if m1 else gmap_of(c.cfg))
     for _ in range(10):
         if c.dead: break
         g.random_step()
@@ -251,7 +269,7 @@ def run_check(tier, seed):
     if not okm:
         es = coq_error_site(outm)
         broken.append({'kind': 'proof', 'theorem_or_lemma': es[2] if es else None, 'site': list(es[:2]) if es else None, 'message': es[3] if es else outm[-1500:]})
-    ok, out, bindir = cargo_build(['vfs'])
+    ok, out, bindir = cargo_build(['vfs'], features=['persist'])     # same feature set as C19: the three checks share the binary
     if not ok:
         broken.append({'kind': 'harness-build', 'log': out[-3000:]})
         return finish(ev, PROP, findings, broken)
